@@ -209,6 +209,26 @@ CLAIMED["C08"] = dict(
         "by correspondence + oracle, not by theorem. The C realloc/memcmp leaf arrays are modelled as lists. Trusted: Coq kernel, harness, oracle. No axioms.",
    technique="Rocq invariant proof (exact modular bookkeeping of leaf summaries over all operation sequences; permutation invariance); differential correspondence on history pairs with equal content",
    design="6/C08")
+CLAIMED["C03"] = dict(
+   text="Theorem C03_gc_preserves_reads (coq/props/C03.v): for ALL ranges begin <= end below the head file and ALL bucket states satisfying the "
+        "C01 refinement relation and the GC precondition (flushed, offset-sorted chunks; every record of a key in the key set and within "
+        "DataFileMax; hint items well-formed), a GC pass without hint merge leaves the bucket related to the SAME reference map: every key reads "
+        "exactly what it read before (value, flags, version), deleted keys stay deleted, absent keys stay absent. The pass is the model function the "
+        "correspondence replays; the proof (about 900 lines, proofs/GcView.v) is a loop invariant over the per-record steps -- newest-test incl. "
+        "the collision probe, copy, destination switch with truncation of the old destination, in-place rewriting of the first file of the range "
+        "with its stale tail (unprocessed records never overlapped because the writing head stays below the read position), conditional repoint, "
+        "hint write, source clearing, final truncation. C03_reachable_states_qualify: every state reachable by client operations and clean "
+        "restarts (C02's invariant) meets the precondition provided no record extends past DataFileMax. C03_gc_then_history: a pass followed by "
+        "ANY history of client operations answers exactly as the reference map, the pass being invisible. Correspondence: 120 GC-mode histories "
+        "per quick run (half of them a dense profile that fills and switches destinations), range resolved by the real range check, merge on/off, "
+        "repeated passes, restarts with index files removed afterwards, replies + GC statistics + directory contents compared with the model; "
+        "python reference-map oracle.",
+   note="PARTIAL: hint merge during GC (merge=on), a restart or a second pass AFTER a pass, and colliding keys are covered by correspondence + oracle "
+        "only (the theorem does not re-establish the restart invariant after the pass); the precondition 'no record past DataFileMax' is an "
+        "assumption on the configuration history. Trusted: Coq kernel, translator (flags gc_repoint_conditional, gc_truncates_after_inplace), "
+        "harness, python oracle. No axioms.",
+   technique="Rocq loop-invariant proof that a GC pass preserves the refinement relation (all states, all ranges); differential correspondence on GC histories incl. directory contents",
+   design="6/C03")
 NOT_YET = {}
 props = [json.loads(l) for l in open(os.path.join(V, "properties.jsonl"))]
 checks = []
